@@ -145,3 +145,29 @@ class NegoEval:
             return dict(count=len(res))
         c = res[0]
         return dict(result=c.get("result"), as_scu=c.get("as_scu"), as_scp=c.get("as_scp"), ts=list(c.get("transfer_syntax")), ab=c.get("abstract_syntax"))
+
+    def acceptor_pair(self, proposal, setting, fname: str = "negotiate_as_acceptor"):
+        """the same abstract syntax proposed twice: context 1 with a transfer syntax the acceptor supports,
+        context 3 without one. -> (first context's outcome as in acceptor(), second context's result code)"""
+        fn = self.repo.func("presentation", fname)
+        rq1 = self.new_cx(context_id=1, abstract_syntax="AB", transfer_syntax=["T1", "T2"])
+        rq2 = self.new_cx(context_id=3, abstract_syntax="AB", transfer_syntax=["T8"])
+        ac = self.new_cx(context_id=None, abstract_syntax="AB", transfer_syntax=["T2", "T1"], scu_role=setting[0], scp_role=setting[1])
+        roles = {"AB": proposal} if proposal is not None else {}
+        it = self.interp()
+        params = [a.arg for a in fn.args.args]
+        try:
+            cxs, rr = it.call_function(fn, dict(zip(params, [[rq1, rq2], [ac], roles])))
+        except Raised as r:
+            return dict(raised=r.kind), None
+        by_id = {c.get("context_id"): c for c in cxs}
+        if sorted(by_id) != [1, 3] or len(cxs) != 2:
+            return dict(count=len(cxs)), None
+        c = by_id[1]
+        reply = None
+        if rr:
+            if len(rr) != 1:
+                return dict(replies=len(rr)), None
+            reply = (rr[0].get("scu_role"), rr[0].get("scp_role"), rr[0].get("sop_class_uid"))
+        first = dict(result=c.get("result"), as_scu=c.get("as_scu"), as_scp=c.get("as_scp"), reply=reply, ts=list(c.get("transfer_syntax")), cid=1, ab=c.get("abstract_syntax"))
+        return first, by_id[3].get("result")
